@@ -37,6 +37,36 @@ SIG_LAYERS = ("C11|rtlmax_ltrmin_decomposition|a later layer has a left-to-right
               "value >= number of remaining entries")
 
 
+# --------------------------------------------------------------------------------------------
+# reporting.  core.Ctx.merge keeps at most 400 violation records and drops further records that
+# carry no signature, so thousands of stored known-finding records would crowd out a fresh
+# violation found later in the run.  Cases that match a known finding are therefore all COUNTED
+# (exactly as Partial.violation counts them) but only a few are STORED as records: the first per
+# signature in a shard that was told to store them (small lengths / first shard of a sub-check).
+# --------------------------------------------------------------------------------------------
+
+_STORE_KNOWN = False
+_STORED = set()
+
+
+def begin_shard(store_known):
+    global _STORE_KNOWN
+    _STORE_KNOWN = bool(store_known)
+    _STORED.clear()
+
+
+def report(part, sub, case, detail, sig=None):
+    if sig is None:
+        part.violation(sub, case, detail)
+    elif _STORE_KNOWN and sig not in _STORED:
+        _STORED.add(sig)
+        part.violation(sub, case, detail, sig=sig)
+    else:
+        part.nviol += 1
+        part.bump("sig:" + sig)
+
+
+
 def _lib():
     from permuta import Perm
     from permuta.permutils.statistics import PermutationStatistic
@@ -246,7 +276,7 @@ def check_method(part, Perm, p, name, args, repeat=False, times=1):
             sig = None
             if dev is not None and got == expected(kind, dev, p, args):
                 sig = SIG_LAYERS
-            part.violation("methods", case, {"expected": exp, "got": got}, sig=sig)
+            report(part, "methods", case, {"expected": exp, "got": got}, sig)
             return exp
         if repeat:
             try:
@@ -271,7 +301,7 @@ def check_table_entry(part, Perm, PS, p, name, func, ref_val, dev_val, times=1):
             return
         if got != ref_val or isinstance(got, bool) or not isinstance(got, int):
             sig = SIG[name] if (name in SIG and got == dev_val) else None
-            part.violation("table", case, {"expected": ref_val, "got": got}, sig=sig)
+            report(part, "table", case, {"expected": ref_val, "got": got}, sig)
             return
 
 
@@ -293,6 +323,7 @@ def shard_perms(shard):
     n, lo, hi, do_methods, do_table, do_repeat, want_vec, skip_heavy = shard
     Perm, PS = _lib()
     part = Partial()
+    begin_shard(n <= 5)       # smallest witnesses of the known findings have length 4 and 5
     entries = table_entries(PS) if do_table else []
     payload = []
     names = sorted(METHODS)
@@ -370,8 +401,8 @@ def attribute(part, sub, case, got, exp_ref, exp_dev, names_of):
                                    "reported_but_identity_fails": [e for e in fresh if e in got][:4],
                                    "identity_holds_but_not_reported": [e for e in fresh if e not in got][:4]})
     for nm, es in sorted(known.items()):
-        part.violation(sub, case, {"explained_by_deviation_model_of": nm, "elements": es[:4]},
-                       sig=SIG[nm])
+        report(part, sub, case, {"explained_by_deviation_model_of": nm, "elements": es[:4]},
+               SIG[nm])
 
 
 def no_dups(part, sub, case, lst):
@@ -402,8 +433,8 @@ def check_distribution(part, sub, case, got, data, j, name):
         if sum(got) == len(data) and all(got[k] == dv.get(k, 0) for k in range(len(got))) \
                 and all(k < len(got) for k in dv):
             sig = SIG[name]
-    part.violation(sub, case, {"expected": [exp.get(k, 0) for k in range(max(exp, default=0) + 1)],
-                               "got": got, "class_size": len(data)}, sig=sig)
+    report(part, sub, case, {"expected": [exp.get(k, 0) for k in range(max(exp, default=0) + 1)],
+                             "got": got, "class_size": len(data)}, sig)
     return exp
 
 
@@ -450,8 +481,9 @@ def run_dist_case(part, basis, nmax, stat_names=None):
 
 
 def shard_dist(shard):
-    bases, nmax = shard
+    bases, nmax, store = shard
     part = Partial()
+    begin_shard(store)
     for basis in bases:
         run_dist_case(part, basis, nmax)
     if bases and bases[0] is not None:
@@ -506,7 +538,10 @@ def run_pair_case(part, tool, b1, b2, n, dim):
         attribute(part, "classes", case, got, exp[0], exp[1], lambda e: (e,))
         return 1 if 0 < len(exp[0]) < len(ents) else 0
     if tool == "jointly_equally_distributed":
-        got = {x for x in out if all(nm in known for nm in x)}
+        # a combination is unordered: a reported tuple is read in table order
+        order = {e[1]: e[0] for e in ents}
+        got = {tuple(sorted(x, key=order.get)) if len(set(x)) == len(x) else x
+               for x in out if all(nm in known for nm in x)}
         exp = []
         for w in (0, 1):
             exp.append({tuple(e[1] for e in combo)
@@ -537,7 +572,9 @@ def run_pair_case(part, tool, b1, b2, n, dim):
 
 def shard_pairs(shard):
     part = Partial()
-    for tool, b1, b2, n, dim in shard:
+    store, cases = shard
+    begin_shard(store)
+    for tool, b1, b2, n, dim in cases:
         nt = run_pair_case(part, tool, b1, b2, n, dim)
         part.add(1, nt)
     return part
@@ -655,6 +692,8 @@ def run_bij_case(part, label, pairs, tools):
 
 def shard_bij(shard):
     part = Partial()
+    store, shard = shard
+    begin_shard(store)
     for label, pairs, tools in shard:
         nt = run_bij_case(part, label, pairs, tools)
         part.add(len(tools), nt)
@@ -688,6 +727,7 @@ def all_bijections_s3_shards(per, maps=False):
 def shard_bij_s3(shard):
     images, tools, kind = shard
     part = Partial()
+    begin_shard(False)
     s3 = R.perms(3)
     for im in images:
         pairs = list(zip(s3, im))
@@ -756,6 +796,7 @@ def shard_isprime(shard):
     lo, hi = shard
     from permuta.misc.math import is_prime
     part = Partial()
+    begin_shard(False)
     nt = 0
     for m in range(lo, hi):
         exp = PRIMES[m] if m >= 0 else False
@@ -802,6 +843,7 @@ def run(ctx, only=None):
 
     global PRIMES
     quick = ctx.quick
+    begin_shard(False)
     D.selftest(5)
     Perm, PS = _lib()
 
@@ -906,11 +948,11 @@ def run(ctx, only=None):
     if want("dist"):
         e0 = ctx.evals
         nd = 6 if quick else 7
-        shards = [([None], nd)] + [([b], nd) for b in pool]
+        shards = [([None], nd, True)] + [([b], nd, False) for b in pool]
         if not quick:
             # + 516 bases with a pattern of length 4, explored to length 6
             big = [b for b in pool_bases(4, 2) if max(len(x) for x in b) == 4]
-            shards += [(c, 6) for c in split(big, 128)]
+            shards += [(c, 6, False) for c in split(big, 128)]
         ctx.pmap(shard_dist, shards)
         ctx.bounds["dist"] = ("all 32 table statistics x (all permutations + every class with a basis of "
                               "<=2 patterns of length <=3 (45)) x lengths 0..%d" % nd
@@ -939,7 +981,7 @@ def run(ctx, only=None):
         if not quick:
             for b1, b2 in itertools.combinations_with_replacement(singles[3:], 2):
                 cases.append(("jointly_equally_distributed", b1, b2, 3, 3))
-        shards = split(cases, 64 if quick else 256)
+        shards = [(i == 0, c) for i, c in enumerate(split(cases, 64 if quick else 256))]
         ctx.pmap(shard_pairs, shards)
         ctx.bounds["classes"] = {
             "pool": "bases of <=2 patterns of length <=3 (45 classes; 9 single-pattern classes)",
@@ -963,7 +1005,7 @@ def run(ctx, only=None):
                 cases.append((label, pairs, all_tools))
         for label, pairs in bij_family_upto(nb):
             cases.append((label, pairs, all_tools))
-        ctx.pmap(shard_bij, split(cases, 64))
+        ctx.pmap(shard_bij, [(i < 4, c) for i, c in enumerate(split(cases, 64))])
         per = 12 if quick else 9
         s3 = [(chunk, all_tools[:3], "bijection-of-S3")
               for chunk in all_bijections_s3_shards(per)]
@@ -996,6 +1038,7 @@ def run(ctx, only=None):
 def replay(ctx, rec):
     Perm, PS = _lib()
     sub, case = rec["sub"], rec["case"]
+    begin_shard(True)
     T = 3      # repeat on fresh objects: a failure that needs an earlier call still reproduces
     if sub in ("methods", "repeat"):
         p = tuple(case["perm"])
